@@ -398,7 +398,7 @@ func runC18(t *testing.T, cases []map[string]interface{}, ev *vEvents) {
 	_ = redirectsKept
 	for i, c := range cases {
 		payload := vPayloadText(vStrs2(c["payload"]))
-		if sk := vStr(c, "sink"); sk == "profile_path_user" || sk == "logout_user" {
+		if sk := vStr(c, "sink"); sk == "profile_path_user" || sk == "logout_user" || sk == "profile_path_user_readonly" {
 			payload = strings.ReplaceAll(payload, "/", "") // the path is split on "/" by design: truncation is not markup
 		}
 		var pages []vResp
@@ -438,6 +438,11 @@ func runC18(t *testing.T, cases []map[string]interface{}, ev *vEvents) {
 				Form: url.Values{"username": {payload}, "user": {payload}, "password": {"wrong"}}}))
 		case "profile_path_user":
 			pages = append(pages, w.Do(vReq{Method: "GET", Path: "/profile/" + url.PathEscape(payload), Headers: htmlH, Cookies: admin}))
+		case "profile_path_user_readonly":
+			for _, lvl := range []int{AuthTypePassword, AuthTypePassword | AuthTypeTOTP, AuthTypePassword | AuthTypeSymantecVIP} {
+				pages = append(pages, w.Do(vReq{Method: "GET", Path: "/profile/" + url.PathEscape(payload), Headers: htmlH,
+					Cookies: map[string]string{authCookieName: w.mintCookie("admin", lvl, 0)}}))
+			}
 		case "token_name_profile", "totp_name_profile":
 			p, _, _, err := w.st.LoadUserProfile("bob")
 			vMust(err)
